@@ -38,6 +38,7 @@ CONSTANTS
   Faults,      \* faults an update may be served under: subset of {"none", "abmf"} ("abmf": the account server is unreachable)
   Events,      \* TRUE: the model's subscribers also send one-time events (event based charging next to their sessions)
   EvTypes,     \* values of oneTimeEventType a create may carry ("" = absent); legal with and without oneTimeEvent
+  PlmnKinds,   \* PLMNs a consumer may name in a create: "mcc/mnc" strings, "" = none
   BulkEvents,  \* numbers of usage containers a one-time event may carry in bulk (more than one record holds)
   OpCfgs,      \* operator configurations the CHF may run under (records [vl, vlp, qvt, th]; constant within a behaviour)
   Traffic,     \* numbers of unrelated one-time creates (they advance the global record counter)
@@ -137,11 +138,11 @@ RefKind(t) ==
 \* ---- steps ----
 DoCreate ==
   /\ Cardinality(Dom(labels)) < MaxSess
-  /\ \E u \in Subs, c \in Consumers, tpl \in CreateTemplates, pad \in Pads, addr \in AddrKinds, cm \in ChidModes, ett \in EvTypes :
+  /\ \E u \in Subs, c \in Consumers, tpl \in CreateTemplates, pad \in Pads, addr \in AddrKinds, cm \in ChidModes, ett \in EvTypes, pl \in PlmnKinds :
        LET lab == "s" \o ToString(Cardinality(Dom(labels)) + 1)
            us  == Stamp(tpl, 1, nid)
            a   == [u |-> u, supi |-> Supi(u), sub |-> u, c |-> c, onetime |-> FALSE, usage |-> us,
-                   chid |-> IF cm = 0 THEN Cardinality(Dom(labels)) + 1 ELSE cm, pad |-> pad, notify |-> "n/" \o u \o "/" \o lab]
+                   chid |-> IF cm = 0 THEN Cardinality(Dom(labels)) + 1 ELSE cm, pad |-> pad, notify |-> "n/" \o u \o "/" \o lab, plmn |-> pl]
            r   == Create(st, a)
            h2  == HCreate(h, a, r.resp)
        IN /\ st' = r.st /\ h' = h2
@@ -150,8 +151,8 @@ DoCreate ==
           /\ labels' = Upd(labels, lab, [ref |-> r.resp.ref, u |-> u, live |-> TRUE])
           /\ nid' = nid + CountC(tpl, 1)
           /\ hist' = Append(hist, [a |-> "create", u |-> u, s |-> lab, c |-> c, usage |-> tpl,
-                                   pad |-> pad, chid |-> a.chid, addr |-> addr, ett |-> ett,
-                                   sig |-> StepSig("create:" \o addr \o ":" \o c \o ":" \o ToString(cm) \o ":" \o ett, st, r.st, u, us, r.resp, <<>>)])
+                                   pad |-> pad, chid |-> a.chid, addr |-> addr, ett |-> ett, plmn |-> pl,
+                                   sig |-> StepSig("create:" \o addr \o ":" \o c \o ":" \o ToString(cm) \o ":" \o ett \o ":" \o pl, st, r.st, u, us, r.resp, <<>>)])
 
 \* a one-time event of one of the model's subscribers: answered at once, opens no session, its record joins the
 \* subscriber's records
